@@ -5,7 +5,7 @@ forward models of the shipped linear test problems (Deconvolution1D, Deconvoluti
 Model/C07_Adj.v.  EXACT on integer data where only ring operations occur, 1e-9 otherwise (KL expansions, FFT
 convolution, float PSFs).  Independent oracle: the inner-product identity, get_matrix vs forward column by column,
 T vs adjoint/forward -- computed from the implementation's own outputs in Fractions."""
-import itertools, warnings
+import itertools, warnings, copy
 from fractions import Fraction
 import numpy as np
 from common import *
@@ -297,7 +297,7 @@ def build_model(meta):
         coq = "(mat_model %s %s %s %s)" % (cnat(A.shape[1]), enc_mat(A), D.coq, R.coq)
         return M(mod, coq, D, R, "testproblem", False, A.shape[1], A.shape[0], {"A": A, "tp": tp})
     D, R = mk_geom(ms["D"]), mk_geom(ms["R"])
-    A = np.array(ms["A"], dtype=float)
+    A = np.array(ms["A"], dtype=float) * 2.0 ** ms.get("scale", 0)      # dyadic magnitude sweep: still exact
     backing = ms["backing"]
     exact = D.exact and R.exact
     if backing in ("dense", "csc", "csr"):
@@ -457,6 +457,10 @@ def observe(m, meta):
     op = meta["op"]
     al = Alias()
     mut = bool(m.info.get("mutates"))
+    # state of get_matrix: today the stored matrix is returned as it is; after fixes/C07_get_matrix_parameter_map.diff only where it is
+    # the map between parameters (identity geometries) or was assembled from forward
+    o["gm_fixed"] = hasattr(mod, "_par_matrix")
+    o["as_is"] = (not o["gm_fixed"]) or m.backing == "function" or meta["model"].get("tp") == "deconv2d" or (m.D.ident and m.R.ident)
     cv = lambda f, v, label: call_vec(f, v, al, label, mut)
     if op == "fa":
         o["fx"] = cv(mod.forward, x, "forward(x)")
@@ -474,6 +478,10 @@ def observe(m, meta):
         except Exception:
             T = None
         o["T_ok"] = T is not None
+        # which callables T is built from: the bound methods adjoint/forward (conversions then applied twice) or the
+        # underlying _adjoint_func/_forward_func (fixes/C07_transpose_underlying_callables.diff)
+        o["T_underlying"] = bool(T is not None and getattr(T, "_forward_func", None) is getattr(mod, "_adjoint_func", 0)
+                                 and getattr(T, "_adjoint_func", None) is getattr(mod, "_forward_func", 0))
         o["fx"] = cv(mod.forward, x, "forward(x)")
         o["ay"] = cv(mod.adjoint, y, "adjoint(y)")
         if T is not None:
@@ -492,6 +500,120 @@ def observe(m, meta):
     o["ay_end"] = cv(mod.adjoint, y, "the last adjoint(y)")
     o["alias"] = al.changed()
     return o
+
+
+REPS = ["arr_par", "arr_fun", "cuqi_par", "cuqi_fun", "cuqi_par_eq", "cuqi_fun_eq", "cuqi_other", "samples_par", "samples_fun"]
+COQ_REP = {"arr_par": "RArrayPar", "arr_fun": "RArrayFun", "cuqi_par": "RCuqiPar", "cuqi_fun": "RCuqiFun", "cuqi_other": "RCuqiOther",
+           "cuqi_par_eq": "RCuqiPar", "cuqi_fun_eq": "RCuqiFun",      # an equal geometry that is another object
+           "samples_par": "RArrayPar", "samples_fun": "RArrayFun"}
+
+
+def observe_reps(m, meta):
+    """forward and adjoint on every representation of the same input: ndarray of parameters, ndarray of function values (is_par=False),
+    CUQIarray of parameters / of function values with the model's geometry, CUQIarray with another geometry, Samples of either kind"""
+    from cuqi.array import CUQIarray
+    from cuqi.samples import Samples
+    from cuqi.geometry import Discrete
+    mod = m.obj
+    o = {}
+    for side, fn, gin, v, v2 in (("f", mod.forward, mod.domain_geometry, meta["x"], meta["x2"]), ("a", mod.adjoint, mod.range_geometry, meta["y"], meta["y2"])):
+        with warnings.catch_warnings():
+            warnings.simplefilter("ignore")
+            fv, fv2 = np.asarray(gin.par2fun(np.array(v, dtype=float))), np.asarray(gin.par2fun(np.array(v2, dtype=float)))
+        o[side + "_fun"] = [[float(a) for a in fv.ravel()], [float(a) for a in fv2.ravel()]]       # C-order flat function values
+        for rep in REPS:
+            key = side + "_" + rep
+            try:
+                with warnings.catch_warnings():
+                    warnings.simplefilter("ignore")
+                    if rep == "arr_par":
+                        out = fn(np.array(v, dtype=float))
+                    elif rep == "arr_fun":
+                        out = fn(fv.copy(), is_par=False)
+                    elif rep == "cuqi_par":
+                        out = fn(CUQIarray(np.array(v, dtype=float), is_par=True, geometry=gin))
+                    elif rep == "cuqi_fun":
+                        out = fn(CUQIarray(fv.copy(), is_par=False, geometry=gin))
+                    elif rep == "cuqi_par_eq":
+                        out = fn(CUQIarray(np.array(v, dtype=float), is_par=True, geometry=copy.deepcopy(gin)))
+                    elif rep == "cuqi_fun_eq":
+                        out = fn(CUQIarray(fv.copy(), is_par=False, geometry=copy.deepcopy(gin)))
+                    elif rep == "cuqi_other":
+                        out = fn(CUQIarray(np.array(v, dtype=float), is_par=True, geometry=Discrete(["v%d" % i for i in range(len(v))])))
+                    elif rep == "samples_par":
+                        out = fn(Samples(np.column_stack([v, v2]).astype(float), geometry=gin))
+                    else:
+                        if fv.ndim != 1:
+                            o[key] = "skipped"
+                            continue
+                        out = fn(Samples(np.column_stack([fv, fv2]), geometry=gin, is_par=False), is_par=False)
+                if rep.startswith("samples"):
+                    S = np.asarray(out.samples, dtype=float)
+                    o[key] = {"val": [[float(a) for a in S[:, j]] for j in range(S.shape[1])], "wrap": type(out).__name__}
+                else:
+                    a = np.asarray(out, dtype=float)
+                    o[key] = {"val": [float(t) for t in a] if a.ndim == 1 else "shape %s" % (a.shape,), "wrap": type(out).__name__}
+                gout = mod.range_geometry if side == "f" else mod.domain_geometry
+                if hasattr(out, "geometry"):
+                    o[key]["geom"] = bool(out.geometry is gout) and (rep.startswith("samples") or bool(getattr(out, "is_par", False)))
+            except Exception as e:
+                o[key] = {"val": None, "wrap": "raised " + type(e).__name__}
+    return o
+
+
+def rep_oracle(m, meta, o):
+    ex = m.exact
+    for side, name in (("f", "forward"), ("a", "adjoint")):
+        base = o[side + "_arr_par"]["val"]
+        for rep in REPS:
+            r = o[side + "_" + rep]
+            if r == "skipped":
+                continue
+            want = "Samples" if rep.startswith("samples") else ("CUQIarray" if rep.startswith("cuqi") else "ndarray")
+            ref = [base, None] if rep.startswith("samples") else base
+            got = r["val"]
+            if rep.startswith("samples"):
+                ok = isinstance(got, list) and len(got) == 2 and (base is None or same_vec(got[0], base, ex))
+            else:
+                ok = (got is None and base is None) or same_vec(got, base, ex)
+            if not ok:
+                return ("%s on representation %s gives %s but %s on the plain parameter vector gives %s" % (name, rep, got, name, base),
+                        "LinearModel.%s|representation:%s" % (name, rep))
+            if isinstance(got, list) and r.get("geom") is False:
+                return ("%s on representation %s returns an object that is not a parameter array on the output geometry of the map" % (name, rep),
+                        "LinearModel.%s|representation-geometry:%s" % (name, rep))
+            if isinstance(got, list) and r["wrap"] != want:
+                return ("%s on representation %s returns a %s, not a %s" % (name, rep, r["wrap"], want), "LinearModel.%s|representation-type:%s" % (name, rep))
+    fx, ay = o["f_cuqi_par"]["val"], o["a_cuqi_par"]["val"]
+    if isinstance(fx, list) and isinstance(ay, list):
+        a, b = ip(fx, meta["y"]), ip(meta["x"], ay)
+        if not same(a, b, ex):
+            return ("<A x, y> = %s but <x, A* y> = %s with CUQIarray inputs (x=%s, y=%s)" % (float(a), float(b), meta["x"], meta["y"]), adj_signature(m, meta))
+    return (None, "")
+
+
+def rep_coq_expr(m, meta, o):
+    t = ctol(m.exact)
+    parts = []
+    for side, chk, G, v, v2 in (("f", "check_forward", m.D, meta["x"], meta["x2"]), ("a", "check_adjoint", m.R, meta["y"], meta["y2"])):
+        f1, f2 = o[side + "_fun"]
+        par = ["(V1 %s)" % enc_vec(v), "(V1 %s)" % enc_vec(v2)]
+        fun = ["(funval %s %s)" % (G.coq, enc_vec(f1)), "(funval %s %s)" % (G.coq, enc_vec(f2))]
+        for rep in REPS:
+            r = o[side + "_" + rep]
+            if r == "skipped":
+                continue
+            if isinstance(r["val"], str):
+                return "false"
+            ins = fun if "_fun" in rep else par
+            if rep.startswith("samples"):
+                obs = "None" if r["val"] is None else "(Some %s)" % clist([enc_vec(c) for c in r["val"]])
+                parts.append("%s_samples %s %s %s %s %s" % (chk, t, m.coq, COQ_REP[rep], clist(ins), obs))
+            else:
+                parts.append("%s_rep %s %s %s %s %s" % (chk, t, m.coq, COQ_REP[rep], ins[0], enc_opt(r["val"], enc_vec)))
+                if r["val"] is not None:
+                    parts.append("Bool.eqb (rep_wraps %s) %s" % (COQ_REP[rep], cbool(r["wrap"] == "CUQIarray")))
+    return " && ".join(parts)
 
 
 def stability_oracle(m, meta, o):
@@ -524,7 +646,7 @@ def property_oracle(m, meta, o):
                     adj_signature(m, meta))
         return (None, "")
     if op == "gm":
-        stored = m.backing != "function" and meta["model"].get("tp") != "deconv2d"
+        stored = m.backing != "function" and meta["model"].get("tp") != "deconv2d" and not o.get("gm_fixed")
         sig = ("LinearModel.get_matrix|stored-matrix+nonidentity-geometry" if stored and not (m.D.ident and m.R.ident)
                else "LinearModel.get_matrix|%s,%s->%s" % (m.backing, m.D.family, m.R.family))
         Gm = o["G"]
@@ -556,16 +678,19 @@ def property_oracle(m, meta, o):
         if not same_vec(o["TTf"], o["fx"], ex):
             return ("T.T.forward(x) = %s but forward(x) = %s" % (o["TTf"], o["fx"]), sig)
         if o["G"] is None or o["TG"] is None or not same_mat(o["TG"], transpose(o["G"], m.D.par_dim), ex):
-            stored = m.backing != "function" and meta["model"].get("tp") != "deconv2d"
+            stored = m.backing != "function" and meta["model"].get("tp") != "deconv2d" and not o.get("gm_fixed")
             if stored and not (m.D.ident and m.R.ident):
                 sig = "LinearModel.get_matrix|stored-matrix+nonidentity-geometry"
-            elif not stored and not fam:
+            elif not stored:
                 # both matrices are assembled column by column (from adjoint(e_i) and from forward(e_j)) and T.forward = adjoint
                 # was confirmed above: the mismatch says the adjoint callable is not the transpose of the forward callable
                 sig = adj_signature(m, meta)
             return ("T.get_matrix() is not get_matrix().T: %s vs %s" % (o["TG"], o["G"]), sig)
         if o["TG"] is not None and o["Tf"] is not None and not same_vec(matvec(o["TG"], y), o["Tf"], ex):
-            if not fam:
+            stored = m.backing != "function" and meta["model"].get("tp") != "deconv2d" and not o.get("gm_fixed")
+            if stored and not (m.D.ident and m.R.ident):
+                sig = "LinearModel.get_matrix|stored-matrix+nonidentity-geometry"     # T copies the stored function-space matrix
+            else:
                 # T.forward(y) = adjoint(y) and T.get_matrix() = get_matrix().T were both confirmed above, so this says
                 # get_matrix().T @ y != adjoint(y): the adjoint is not the transpose of the forward map (reached when the matrix
                 # was assembled and stored by get_matrix() before T copied its transpose)
@@ -586,26 +711,36 @@ def coq_expr(m, meta, o):
     em = lambda v: enc_opt(v, enc_mat)
     if op == "fa":
         return "check_forward %s %s %s %s && check_adjoint %s %s %s %s" % (t, m.coq, enc_vec(x), ev(o["fx"]), t, m.coq, enc_vec(y), ev(o["ay"]))
+    ai = cbool(o["as_is"])
     if op == "gm":
-        return "check_get_matrix %s %s %s && check_get_matrix %s (after_get_matrix %s) %s" % (t, m.coq, em(o["G"]), t, m.coq, em(o["G2"]))
-    base = m.coq if op == "T" else "(after_get_matrix %s)" % m.coq
-    T = "(lmT %s %s)" % (cnat(m.ncols_T), base)
+        return "check_get_matrix_gen %s %s %s %s && check_get_matrix_gen %s %s (after_get_matrix_gen %s %s) %s" % (t, ai, m.coq, em(o["G"]), t, ai, ai, m.coq, em(o["G2"]))
+    base = m.coq if op == "T" else "(after_get_matrix_gen %s %s)" % (ai, m.coq)
+    u = cbool(o.get("T_underlying", False))
+    T = "(lmT_gen %s %s %s)" % (u, cnat(m.ncols_T), base)
     if not o["T_ok"]:
         return "false"
     parts = ["check_forward %s %s %s %s" % (t, T, enc_vec(y), ev(o["Tf"])),
              "check_adjoint %s %s %s %s" % (t, T, enc_vec(x), ev(o["Ta"])),
-             "check_get_matrix %s %s %s" % (t, T, em(o["TG"])),
-             "check_forward %s (lmT %s %s) %s %s" % (t, cnat(m.nrows_T), T, enc_vec(x), ev(o["TTf"])),
+             "check_get_matrix_gen %s %s %s %s" % (t, ai, T, em(o["TG"])),
+             "check_forward %s (lmT_gen %s %s %s) %s %s" % (t, u, cnat(m.nrows_T), T, enc_vec(x), ev(o["TTf"])),
              cbool(o.get("geoms_swapped", False))]
     return " && ".join(parts)
+
+
+def run_one(m, meta):
+    """-> (observations, (detail, signature), coq expression) for one case"""
+    if meta["op"] == "rep":
+        o = observe_reps(m, meta)
+        return o, rep_oracle(m, meta, o), rep_coq_expr(m, meta, o)
+    o = observe(m, meta)
+    return o, property_oracle(m, meta, o), coq_expr(m, meta, o)
 
 
 def make_cases(meta, cell, trivial=False):
     """all Case objects of one (model, operation, x, y)"""
     m = build_model(meta)
-    o = observe(m, meta)
-    detail, sig = property_oracle(m, meta, o)
-    cases = [Case(expr=coq_expr(m, meta, o), meta=meta, cell=cell, trivial=trivial, kind="EXACT" if m.exact else "DECISION")]
+    o, (detail, sig), expr = run_one(m, meta)
+    cases = [Case(expr=expr, meta=meta, cell=cell, trivial=trivial, kind="EXACT" if m.exact else "DECISION")]
     if detail:
         cases.append(Case(expr="true", meta=dict(meta, verdict="oracle"), cell="oracle-verdict/" + cell, trivial=True, impl_fail=detail, signature=sig))
     return cases
@@ -779,6 +914,58 @@ def run(ctx):
             ms = {"backing": "function", "impl": kind, "n": n, "par": par, "A": [[int(v) for v in r] for r in A], "D": ["int", A.shape[1]], "R": ["cont1d", A.shape[0]]}
             add(ms, "fa", rvec(rng, A.shape[1]), rvec(rng, A.shape[0]), "function-view/%s/fa" % kind)
 
+    # ---- 2c. a MATRIX applied through image geometries: X |-> A X (get_matrix then returns the stored k x n matrix for a (k c) x (n c) map)
+    for backing in ("dense", "csc"):
+        for (k, n, c, oD, oR) in [(2, 3, 2, "C", "C"), (3, 2, 2, "F", "C"), (2, 2, 3, "C", "F"), (1, 3, 1, "F", "F")]:
+            for op in OPS:
+                for _ in range(1 if op != "fa" else reps):
+                    ms = {"backing": backing, "A": rmat(rng, k, n), "D": ["image", n, c, oD], "R": ["image", k, c, oR]}
+                    add(ms, op, rvec(rng, n * c), rvec(rng, k * c), "matrix@image/%s/%s" % (backing, op))
+
+    # ---- 2d. dyadic magnitude sweep (exact arithmetic: any absolute tolerance in the code shows) -----------------------------
+    for sc in (-40, -20, 30):
+        f = 2.0 ** sc
+        for (ms0, nD, nR) in [({"backing": "dense", "D": ["cont1d", 3], "R": ["int", 2]}, 3, 2), ({"backing": "csr", "D": ["int", 2], "R": ["discrete", 3]}, 2, 3),
+                              ({"backing": "function", "D": ["image", 2, 2, "F"], "R": ["cont1d", 3]}, 4, 3)]:
+            for op in OPS:
+                ms = dict(ms0, A=rmat(rng, nR, nD), scale=sc)
+                add(ms, op, [v * f for v in rvec(rng, nD)], [v * f for v in rvec(rng, nR)], "scale-2^%d/%s/%s" % (sc, ms0["backing"], op))
+
+    # ---- 2e. every representation of the input: ndarray / CUQIarray / Samples, parameters or function values (is_par=False) ----
+    rep_models = [{"backing": "dense", "A": None, "D": ["cont1d", 3], "R": ["int", 2]},
+                  {"backing": "csc", "A": None, "D": ["discrete", 2], "R": ["cont1d", 3]},
+                  {"backing": "function", "A": None, "D": ["image", 2, 2, "F"], "R": ["image", 3, 1, "C"]},
+                  {"backing": "function", "A": None, "D": ["tuple", 2, 2], "R": ["cont2d", 2, 2]},
+                  {"backing": "function", "A": None, "D": ["cont1d", 3], "R": ["image", 2, 2, "C"]},
+                  {"backing": "dense", "A": None, "D": ["image", 3, 2, "C"], "R": ["image", 2, 2, "F"]},
+                  {"backing": "dense", "A": None, "D": ["step", 6, 3], "R": ["int", 2]},
+                  {"backing": "function", "A": None, "D": ["int", 3], "R": ["step", 4, 2]},
+                  {"backing": "dense", "A": None, "D": ["kl", 4, 3, 1.5, 2.0], "R": ["int", 2]},
+                  {"backing": "function", "A": None, "D": ["mapped", 2, 1, ["cont1d", 3]], "R": ["mapped", 1, 4, ["discrete", 2]]},
+                  {"backing": "function", "impl": "decimate", "n": 5, "par": 2, "A": None, "D": ["int", 5], "R": ["cont1d", 3]},
+                  {"tp": "deconv2d", "dim": 4, "PSF": [[1, 0, 2], [0, 3, 1], [1, 1, 0]], "BC": "periodic"},
+                  {"tp": "deconv1d", "dim": 5, "PSF": [1, 2, 3], "BC": "zero"},
+                  {"tp": "abel", "dim": 4, "field_type": "Discrete"}]
+    for ms in rep_models:
+        ms = dict(ms)
+        if "tp" in ms:
+            mm = build_model({"model": ms})
+            nD, nR = mm.D.par_dim, mm.R.par_dim
+            label = ms["tp"]
+        else:
+            D, R = mk_geom(ms["D"]), mk_geom(ms["R"])
+            nD, nR = D.par_dim, R.par_dim
+            if ms.get("impl"):
+                ms["A"] = [[int(v) for v in r] for r in impl_pair(ms["impl"], ms["n"], ms["par"])[2]]
+            elif ms["backing"] != "function" and D.fun_shape != (D.fun_dim,):       # matrix @ image
+                ms["A"] = rmat(rng, R.fun_shape[0], D.fun_shape[0])
+            else:
+                ms["A"] = rmat(rng, R.fun_dim, D.fun_dim)
+            label = "%s/%s->%s" % ("matrix" if ms["backing"] != "function" else "function", D.family, R.family)
+        for _ in range(ctx.n(1, 3)):
+            meta = {"op": "rep", "model": ms, "x": rvec(rng, nD), "y": rvec(rng, nR), "x2": rvec(rng, nD), "y2": rvec(rng, nR)}
+            cases.extend(make_cases(meta, "representations/" + label))
+
     # ---- 3. expansions and mapped geometries (non-orthogonal maps), both backings, domain and range side --------
     exp_specs = [["step", 6, 3], ["step", 4, 2], ["step", 8, 4], ["step", 7, 3], ["step", 5, 2], ["step", 3, 3], ["step", 9, 2],
                  ["kl", 6, None, 2.5, 12.0], ["kl", 5, 3, 1.5, 2.0], ["kl", 4, 4, 1.0, 1.0],
@@ -876,8 +1063,7 @@ def _verdict(meta):
         bad = [c for c in cs if c.impl_fail]
         return (bad[0].impl_fail, bad[0].signature) if bad else (None, "")
     m = build_model(meta)
-    o = observe(m, meta)
-    return property_oracle(m, meta, o)
+    return run_one(m, meta)[1]
 
 
 def oracle(ctx, meta):
@@ -983,11 +1169,9 @@ def _replay_one(m):
                 print("model check:", out[-300:])
         return
     mod = build_model(m)
-    o = observe(mod, m)
+    o, (detail, sig), expr = run_one(mod, m)
     print("implementation:", json.dumps(o, default=str)[:3000])
-    detail, sig = property_oracle(mod, m, o)
     print("property oracle:", detail or "holds", "| signature:", sig)
-    expr = coq_expr(mod, m, o)
     rc, out = eval_in_coq(IMPORTS, expr, tag="replay_C07")
     print("model agrees with implementation:", out[-200:])
     if m.get("op") == "fa":
